@@ -324,7 +324,7 @@ func runC07(cfg *vh.Config) error {
 
 	// ---- stream 3: malformed inputs (random bytes, byte flips, token mutations) through Compile and LintFile
 	rMut := cfg.R.Fork("mut")
-	nMut := cfg.Scale(500, 12000)
+	nMut := cfg.Scale(350, 12000)
 	mutContents := make([]map[string]string, nMut)
 	mutHow := make([]string, nMut)
 	for i := 0; i < nMut; i++ {
